@@ -251,6 +251,11 @@ def cases(tier):
                                (2, 3, "sym", "scalar")) + (() if q else ((3, 4, "nonuniform", "time"), (3, 4, "sym", "scalar"))):
         add("case_2d", f"2d_nf{nf}_nd{nd}_{dg}_{layout}", nf=nf, nd=nd, fgrid="nonuniform0", dgrid=dg, layout=layout,
             band="band", opts=dict(weight=10))
+    # direction coordinates outside [0,360) (the [-180,180) convention, a grid running past 360)
+    add("case_2d", "2d_nf2_nd4_uniform_neg_time", nf=2, nd=4, fgrid="nonuniform0", dgrid="uniform_neg", layout="time",
+        band="band", opts=dict(weight=10))
+    add("case_2d", "2d_nf2_nd3_past360_scalar", nf=2, nd=3, fgrid="nonuniform0", dgrid="past360", layout="scalar",
+        band="band", opts=dict(weight=10))
     add("case_2d", "2d_nan_nf2_nd3", nf=2, nd=3, fgrid="uniform", dgrid="uniform_off", layout="scalar", band="band",
         nanmask=[0, 1, 0, 0, 0, 1])
     return cs
